@@ -366,6 +366,16 @@ func runC02(a vh.Args, o *vh.Oracle, r *vh.Result) error {
 		if c.Kind == "par" {
 			return c02Par(a, o, r, &c, 300)
 		}
+		if c.Kind == "trace" {
+			for i := 0; i < 50; i++ {
+				cc := c
+				cc.Sched = c.Sched + uint64(i)*7919
+				if err := c02TraceOne(a, o, r, &cc); err != nil {
+					return err
+				}
+			}
+			return nil
+		}
 		return c02Seq(a, o, r, &c)
 	}
 	rng := vh.NewRand(a.Seed)
@@ -434,6 +444,13 @@ func runC02(a vh.Args, o *vh.Oracle, r *vh.Result) error {
 		if err := c02Stream(a, r, rng); err != nil {
 			return err
 		}
+	}
+	ntr := 100
+	if a.Tier == "thorough" {
+		ntr = 6000
+	}
+	if err := c02Trace(a, o, r, rng, ntr); err != nil {
+		return err
 	}
 	return c02Fixture(a, o, r)
 }
